@@ -469,6 +469,12 @@ func (c *Ctx) chanRecv(ch *ChanV, elem types.Type) (Value, bool) {
 	if ch.closed {
 		return c.zero(elem), false
 	}
+	if ch.onBlock != nil {
+		ch.onBlock()
+		if ch.closed {
+			return c.zero(elem), false
+		}
+	}
 	c.unsupported("receive on empty channel would block")
 	return nil, false
 }
@@ -512,7 +518,19 @@ func (c *Ctx) selectOp(fr *frame, x *ssa.Select) Value {
 		if !x.Blocking {
 			return mk(-1, false, -1, nil)
 		}
-		c.unsupported("blocking select with no ready case")
+		for i, st := range x.States {
+			ch, _ := c.get(fr, st.Chan).(*ChanV)
+			if ch != nil && ch.onBlock != nil && st.Dir == types.RecvOnly {
+				ch.onBlock()
+				if ch.closed {
+					ready = append(ready, i)
+					break
+				}
+			}
+		}
+		if len(ready) == 0 {
+			c.unsupported("blocking select with no ready case")
+		}
 	}
 	pick := ready[0]
 	if len(ready) > 1 {
